@@ -1,4 +1,5 @@
 import Tpp.Lemmas.Input
+import Tpp.Lemmas.Faithful
 /-!
 C20 – an abstract key is reported only for input that encodes that key.
 
@@ -75,6 +76,63 @@ theorem C20_partial :
     refine ⟨?_, hiff⟩
     simp [tokens, rawTokens, feed_eq, hidle, parseIdle_eq, h1, h2, h3, h4, h5, optList, wellKnown, plainKey, rawKey,
       Consts.vkmod_none]
+
+/-- **FAITHFULNESS TO THE INPUT** (for every stream whatsoever, from an idle decoder with arbitrary scratch): the control
+    sequence an abstract-key token carries – when it has no private marker – was actually SENT: its spelling (meta ESC if
+    flagged, 7-bit introducer or the 8-bit one for CSI / SS3, the parameters separated by `;`, the final byte) occurs
+    contiguously in the bytes that were fed.  Together with `C20_partial` (the sequence designates the key): a cursor or
+    function key is reported only where the stream really contains a control sequence that encodes that key – never one
+    stitched together from pieces, truncated, or inherited from earlier input. -/
+theorem C20_faithful (st : PState) (hidle : st.ctl = .idle) (bs : List Byte) (k : VKey) (c : CtrlSeq)
+    (hmem : Token.key k ∈ tokens st bs) (hs : k.seq = .ctrl c) (he : c.extender = 0) :
+    ∃ r ∈ renderings c, r <:+: bs := by
+  simp only [tokens, List.mem_map] at hmem
+  obtain ⟨raw, hraw, hwk⟩ := hmem
+  have hF : Faithful [] st := faithful_idle [] st (Or.inl hidle)
+  cases raw with
+  | key k' =>
+    simp [wellKnown] at hwk
+    subst hwk
+    obtain ⟨s', x, hfeed⟩ := rawTokens_mem bs st _ hraw
+    obtain ⟨b, hb⟩ := feed_key_byte s' x k' hfeed
+    rw [hb] at hs; cases hs
+  | mouse ev x y => simp [wellKnown] at hwk
+  | ctrl c' =>
+    simp only [wellKnown] at hwk
+    rcases convertCommon_seq c' with h | ⟨k', h, hk'⟩
+    · rw [h] at hwk; cases hwk
+    · rw [h] at hwk
+      cases hwk
+      rw [hk'] at hs
+      cases hs
+      simpa using faithful_rawTokens bs [] st hF _ hraw he
+
+/-- the same for the control sequences reported as such -/
+theorem C20_faithful_ctrl (st : PState) (hidle : st.ctl = .idle) (bs : List Byte) (c : CtrlSeq)
+    (hmem : Token.ctrl c ∈ tokens st bs) (he : c.extender = 0) :
+    ∃ r ∈ renderings c, r <:+: bs := by
+  simp only [tokens, List.mem_map] at hmem
+  obtain ⟨raw, hraw, hwk⟩ := hmem
+  have hF : Faithful [] st := faithful_idle [] st (Or.inl hidle)
+  cases raw with
+  | key k' => simp [wellKnown] at hwk
+  | mouse ev x y => simp [wellKnown] at hwk
+  | ctrl c' =>
+    simp only [wellKnown] at hwk
+    rcases convertCommon_seq c' with h | ⟨k', h, _⟩
+    · rw [h] at hwk; cases hwk
+      simpa using faithful_rawTokens bs [] st hF _ hraw he
+    · rw [h] at hwk; cases hwk
+
+/-- a meta shift-F5 as the decoder reports it -/
+def metaShiftF5 : CtrlSeq :=
+  { initiator := 0x5B, command := 0x7E, metaFlag := true, args := [[0x31, 0x35], [0x32]], extender := 0 }
+
+-- non-vacuity: that key in the middle of text – and its spelling is where it was sent
+example : Token.key { key := Consts.vk_f5, mods := Consts.vkmod_shift ||| Consts.vkmod_meta, rep := 1, seq := .ctrl metaShiftF5 }
+      ∈ tokens PState.init [0x61, 0x1B, 0x1B, 0x5B, 0x31, 0x35, 0x3B, 0x32, 0x7E, 0x62]
+    ∧ [0x1B, 0x1B, 0x5B, 0x31, 0x35, 0x3B, 0x32, 0x7E] ∈ renderings metaShiftF5 := by
+  decide +kernel
 
 /-- the full statement fails on the current code: the single byte 0x80 (a UTF-8 continuation byte, e.g. the
     second byte of `Ā` = C4 80) is reported as `cursor_up` -/
